@@ -338,6 +338,7 @@ func c07(c *Ctx) {
 	c02DiscardGuard(c, "C07.6/discard-guard")
 	// ---- C07.4 agreement with the replicator ------------------------------------------------------------------------
 	c07Strings(c)
+	c07PrecommitBufferIndex(c)
 }
 
 // c07Strings: literals matched by the replicator against error texts, and stream-metadata keys.
@@ -471,5 +472,52 @@ func collectConstStrings(v ssa.Value, out map[string]bool) {
 				}
 			}
 		}
+	}
+}
+
+
+// c07PrecommitBufferIndex: the precommit buffer holds the transactions after the commit frontier; readAhead(n) returns
+// transaction committedTxID+n+1. Call sites that fetch a specific transaction T therefore pass T-committedTxID-1.
+// PrecommittedAlh() is what a replica reports to the primary as its durable state (the acknowledgement the primary
+// counts): an index that is off by one acknowledges a transaction that is not durable yet.
+func c07PrecommitBufferIndex(c *Ctx) {
+	r := "C07.7/precommit-buffer-index"
+	// per function: the transaction fetched, as (constant offset from the minuend): T = <minuend> + k
+	want := map[string]int64{
+		storeT + "PrecommittedAlh":             0,  // T = durablePrecommittedTxID
+		storeT + "readTxAt":                    0,  // T = txID  (resolved below to whichever function holds the site)
+		storeT + "DiscardPrecommittedTxsSince": -1, // T = txID-1, the last transaction kept
+	}
+	n := 0
+	for _, in := range c.callSites(callTo("embedded/store.(*precommitBuffer).readAhead")) {
+		f := in.Parent()
+		if !fnInPkgs(f, []string{"embedded/store"}) {
+			continue
+		}
+		arg := callOf(in).Args[1]
+		p := newProver(c, f)
+		l := p.linOf(arg)
+		// loops over the buffer (mayCommit / sync: readAhead(i)) are positional, not addressed by transaction id
+		cm := int64(0)
+		hasCommitted := false
+		for k, coef := range l.terms {
+			if !k.len && hasFieldSuffix(desc(k.v), "committedTxID") {
+				hasCommitted = true
+				cm = coef
+			}
+		}
+		if !hasCommitted {
+			continue
+		}
+		n++
+		k, known := want[fnName(f)]
+		if !known {
+			k = 0
+		}
+		c.check(cm == -1 && l.c == -1+k, r, fmt.Sprintf("%s:readAhead#%d", fnName(f), idxAmong(in, callTo("embedded/store.(*precommitBuffer).readAhead"))), c.pos(in.Pos()),
+			"index = T - committedTxID - 1: "+l.String(), fmt.Sprintf("the precommit buffer is addressed with %s; for the transaction this site fetches the index must be T - committedTxID - 1 (constant %d)", l.String(), -1+k))
+	}
+	if n < 3 {
+		c.undecided(r, "floor", fmt.Sprintf("%d id-addressed readAhead sites found (3 confirmed by hand)", n))
 	}
 }
